@@ -404,3 +404,4 @@ MANIFEST = {
             "tables is a syntax-directed normal form of one expression family (unrecognised shape → exit 2), not execution.",
     "technique": "term-table extraction + rational/polynomial normal forms + symbolic differentiation of the table (AST)",
 }
+MANIFEST["text"] += ' The polar-decomposition helper is decided algebraically with the argument read as U·S·Vh, adjoints of products and unitary reductions (right polar factor, Hermitian second factor).'
